@@ -159,6 +159,31 @@ def run(ctx):
             continue
         nhist += 1
     ctx.cov["register_unregister_histories_conforming"] = nhist
+    # a collector that BUNDLES several families (an application-side Collector wrapping library metrics), some of them without samples
+    # at the moment of the scrape (a vector without children), in every position of its list: gather() holds exactly the families
+    # that have a sample, sorted by name (Gather.tla: one family per name with at least one sample)
+    import itertools as _it
+    fam = lambda n, t, k: {"name": n, "help": "h", "type": t, "metrics": [dict({"labels": [["l", "v%d" % i]]}, **({"counter": F(1.0 + i)} if t == "COUNTER" else {"gauge": F(2.0 + i)})) for i in range(k)]}
+    pool = [fam("bq_a", "COUNTER", 1), fam("bq_e1", "COUNTER", 0), fam("bq_c", "GAUGE", 2), fam("bq_e2", "GAUGE", 0)]
+    bjobs = []
+    for perm in _it.permutations(pool):
+        for cut in (2, 3, 4):
+            lst = list(perm[:cut])
+            descs = [{"fq_name": f["name"], "help": "h", "const": [], "var": ["l"]} for f in lst]
+            calls = [{"op": "registry", "as": "r"}, {"op": "int_counter", "as": "lone", "opts": {"name": "bq_lone", "help": "h"}}, {"op": "register", "reg": "r", "obj": "lone"},
+                     {"op": "custom", "as": "cc", "descs": descs, "families": lst}, {"op": "register", "reg": "r", "obj": "cc"}, {"op": "gather", "reg": "r"}, {"op": "gather", "reg": "r"}]
+            bjobs.append({"id": len(bjobs), "calls": calls, "want": sorted([(f["name"], len(f["metrics"])) for f in lst if f["metrics"]] + [("bq_lone", 1)])})
+    bres = run_api(ctx, exe, [{"id": j["id"], "calls": j["calls"]} for j in bjobs], "bundle", nproc=4)
+    nbun = 0
+    for j in bjobs:
+        rs = bres[j["id"]]
+        got = [[(f["name"], len(f["metrics"])) for f in g["ok"]] if "ok" in g else g for g in rs[-2:]]
+        if any("ok" not in x for x in rs) or got[0] != j["want"] or got[1] != j["want"]:
+            ctx.violation("bundling-collector", "a collector returning the families %s (in this order) next to a plain counter: gather() holds %s, expected %s" % (
+                [(f["name"], len(f["metrics"])) for f in j["calls"][3]["families"]], got[0], j["want"]), {"calls": j["calls"]})
+        else:
+            nbun += 1
+    ctx.cov["bundling_collector_scenarios_conforming"] = nbun
     # completeness and order at scale
     import bulk
     nb = 0
